@@ -38,13 +38,16 @@ def build(spec: dict, how: str = None):
     from soundevent import data
 
     if how is None and _RNG is not None and _RNG.random() < 0.35:
-        how = _RNG.choice(["constructor", "json", "deepcopy", "pickle", "derived", "derived", "assigned"])
+        how = _RNG.choice(["constructor", "json", "deepcopy", "pickle", "derived", "derived", "assigned", "tuples"])
     how = how or "dict"
     PATHS_USED[how] = PATHS_USED.get(how, 0) + 1
     g = data.geometry_validate(spec, mode="dict")
     if how == "dict":
         return g
     try:
+        if how == "tuples":
+            # list(zip(times, freqs)) / shapely coords: points arrive as tuples
+            return data.geometry_validate({"type": spec["type"], "coordinates": _tuples(spec["coordinates"])}, mode="dict")
         if how == "constructor":
             return type(g)(coordinates=g.coordinates)
         if how == "json":
@@ -99,6 +102,13 @@ def edit_in_place(geom, rng) -> None:
     annotation tool does when a box is dragged). The new coordinates are valid and in normal form."""
     other = build(random_geom(rng, geom.type, rng.choice(["dyadic", "realistic"])), how="dict")
     geom.coordinates = other.coordinates
+
+
+def _tuples(c):
+    if isinstance(c, list):
+        inner = [_tuples(v) for v in c]
+        return tuple(inner) if all(not isinstance(v, list) for v in c) else inner
+    return c
 
 
 def to_spec(geom) -> dict:
@@ -390,3 +400,51 @@ def shift_time(spec: dict, dt: float) -> dict:
     if t == "Point":
         return {"type": t, "coordinates": [c[0] + dt, c[1]]}
     return {"type": t, "coordinates": sh(c)}
+
+
+def regroupings(spec: dict) -> list:
+    """Valid geometries of the same type made of the SAME numbers in the same order, grouped differently
+    (one line split in two, two lines joined, a ring split into shell + hole, polygons merged into one
+    polygon's rings, ...).  They differ only in structure, which is exactly what a lossy identity (a key
+    that flattens, sorts or stringifies coordinates) cannot tell apart."""
+    t, c = spec["type"], spec["coordinates"]
+    out = []
+    if t == "MultiLineString":
+        flat = [p for line in c for p in line]
+        if len(c) > 1:
+            out.append([flat])
+        for line_i, line in enumerate(c):
+            if len(line) >= 4:
+                k = len(line) // 2
+                out.append(c[:line_i] + [line[:k], line[k:]] + c[line_i + 1:])
+                break
+    elif t == "Polygon":
+        if len(c) > 1:
+            out.append([[p for ring in c for p in ring]])
+        elif len(c[0]) >= 6:
+            k = len(c[0]) // 2
+            out.append([c[0][:k], c[0][k:]])
+    elif t == "MultiPolygon":
+        rings = [r for poly in c for r in poly]
+        if len(rings) > 1:
+            out.append([rings])
+            out.append([[r] for r in rings])
+        elif len(rings[0]) >= 6:
+            k = len(rings[0]) // 2
+            out.append([[rings[0][:k]], [rings[0][k:]]])
+            out.append([[rings[0][:k], rings[0][k:]]])
+    elif t == "MultiPoint" and len(c) >= 2:
+        out.append(c[::-1])
+    res = []
+    from soundevent import data
+
+    for co in out:
+        s2 = {"type": t, "coordinates": co}
+        if co == c:
+            continue
+        try:
+            g = data.geometry_validate(s2, mode="dict")
+        except Exception:
+            continue
+        res.append(to_spec(g))
+    return res
